@@ -1,6 +1,7 @@
 package rules
 
 import (
+	"go/token"
 	"fmt"
 	"go/types"
 	"sort"
@@ -373,10 +374,63 @@ func c09SanitizerOK(c *Ctx, fn *ssa.Function, bad runeSet) (bool, string) {
 			}
 		}
 	}
+	var x ssa.Value
+	if loop != nil {
+		x = loop.Elem
+	} else {
+		// the same walk written with utf8.DecodeRune: for i := 0; i < len(data); i += size { r, size := DecodeRune(data[i:]) }
+		for _, l := range ir.Loops(fn) {
+			if normExpr(fn, []string{c.exprDesc(l.Over)})[0] != "$0" {
+				continue
+			}
+			phi, isPhi := l.Index.(*ssa.Phi)
+			if !isPhi {
+				continue
+			}
+			for b := range l.BodyBlocks() {
+				for _, in := range b.Instrs {
+					call, ok := in.(*ssa.Call)
+					if !ok || call.Call.StaticCallee() == nil || call.Call.StaticCallee().String() != "unicode/utf8.DecodeRune" {
+						continue
+					}
+					sl, ok := call.Call.Args[0].(*ssa.Slice)
+					if !ok || sl.X != ssa.Value(fn.Params[0]) || sl.Low != ssa.Value(phi) || sl.High != nil {
+						continue
+					}
+					// i = phi(0, i + size) with size the decoder's width
+					okInd := len(phi.Edges) >= 2
+					var r ssa.Value
+					for _, e := range phi.Edges {
+						if k, isK := ir.ConstInt(e); isK && k == 0 {
+							continue
+						}
+						add, isAdd := e.(*ssa.BinOp)
+						if !isAdd || add.Op != token.ADD || add.X != ssa.Value(phi) {
+							okInd = false
+							continue
+						}
+						ex, isEx := add.Y.(*ssa.Extract)
+						if !isEx || ex.Tuple != ssa.Value(call) || ex.Index != 1 {
+							okInd = false
+						}
+					}
+					if call.Referrers() != nil {
+						for _, rr := range *call.Referrers() {
+							if ex, isEx := rr.(*ssa.Extract); isEx && ex.Index == 0 {
+								r = ex
+							}
+						}
+					}
+					if okInd && r != nil {
+						loop, x = l, r
+					}
+				}
+			}
+		}
+	}
 	if loop == nil {
 		return false, "no complete loop over the runes of the input"
 	}
-	x := loop.Elem
 	problem := ""
 	nCopy, nEsc := 0, 0
 	var path ir.BlockPath
@@ -412,9 +466,23 @@ func c09SanitizerOK(c *Ctx, fn *ssa.Function, bad runeSet) (bool, string) {
 				continue
 			}
 			name := c.calleeName(call)
-			if name == "fmt.Sprintf" {
-				if f, isStr := ir.ConstString(call.Call.Args[0]); isStr && strings.HasPrefix(f, `\u%04`) {
-					for _, ev := range c.U.ContainerElems(call.Call.Args[1]) {
+			if name == "fmt.Sprintf" || name == "fmt.Appendf" {
+				fi := 0
+				if name == "fmt.Appendf" {
+					fi = 1
+				}
+				f, isStr := ir.ConstString(call.Call.Args[fi])
+				usesX := false
+				for _, ev := range c.U.ContainerElems(call.Call.Args[fi+1]) {
+					if usesRune(ev) {
+						usesX = true
+					}
+				}
+				if usesX && !(isStr && (f == `\u%04x` || f == `\u%04X`)) {
+					problem = fmt.Sprintf("the current rune is written with format %q: only the four-digit \\u escape is both JSON and YAML", f)
+				}
+				if isStr && strings.HasPrefix(f, `\u%04`) {
+					for _, ev := range c.U.ContainerElems(call.Call.Args[fi+1]) {
 						if usesRune(ev) {
 							nEsc++
 							if hit := set.intersect(runeSet{{0x10000, 0x10ffff}}); len(hit) > 0 {
